@@ -1723,7 +1723,7 @@ seed 0: guard true on 1344 pairs, all converge; false on 859, of which 181 have 
 Proved below (`commute_succeeds_around_gap`) for replace-around steps whose slice is closed on both sides (`wrap`,
 `set_node_markup`, `set_block_type`, a `lift` of a node's whole content: hypothesis `hcl`, which also settles the caveat
 "the gap content must not sit on an open spine of the filled slice"), for valid documents and payloads, under
-`CompatTrans` (join-compatibility of node types is transitive: every bundled schema) and with the two ends of the
+`compatTransB` (join-compatibility of node types is transitive: every bundled schema; tied per schema by the C16 check) and with the two ends of the
 inserted content pair-aligned in `db` (`hdbal`: decidable on the given documents; as in C16 `replaceKids_merge_open`).
 How: the guard puts the inner step into the content `kN` of an element node inside the gap (`gap_setup`); that node
 is found again — as a nested level — in `db` and in the gap content from their tokens (`lvl_window_toks`), so the
@@ -1738,7 +1738,7 @@ needs the filled slice split as `fappend cA cB` at a top-level seam and `lcompat
 set_option maxHeartbeats 400000 in
 /-- **a replace step strictly inside the kept gap of a replace-around step, happening inside an element node of the gap
     content** (`gapGuard`): neither rebased step is dropped, both orders apply, and they give the same document -/
-theorem commute_succeeds_around_gap (S : Schema) (htr : CompatTrans S) (d da db : Node)
+theorem commute_succeeds_around_gap (S : Schema) (htr : compatTransB S = true) (d da db : Node)
     (f t gf gt ins f1 t1 : Nat) (sl s1 : Slice) (st b1 : Bool)
     (hv : C01.Valid S d) (hpvA : C01.PayloadValid S d (.replaceAround f t gf gt sl ins st))
     (hpvR : openValid S s1.openStart s1.openEnd s1.content = true)
@@ -1753,6 +1753,7 @@ theorem commute_succeeds_around_gap (S : Schema) (htr : CompatTrans S) (d da db 
       (Step.replaceAround f t gf gt sl ins st).map (Step.replace f1 t1 s1 b1).getMap = some A' ∧
       (Step.replace f1 t1 s1 b1).map (Step.replaceAround f t gf gt sl ins st).getMap = some R' ∧
       S.apply A' da = .ok dab ∧ S.apply R' db = .ok dab := by
+  have htr := compatTrans_of_B S htr
   obtain ⟨gap, I, hgap, ho1, ho2, hinst, hb2, hio, hin, hisz, hl⟩ :=
     around_as_replace S d db f t gf gt ins sl st hn hsn hs hb
   obtain ⟨hwf, hins, hgo⟩ := id hs
@@ -1957,7 +1958,7 @@ theorem commute_succeeds_around_gap (S : Schema) (htr : CompatTrans S) (d da db 
     of the gap content** (`gapGuard` on `(from', to', slice')`; first step's slice closed): the second step is the plain
     replace by its filled slice, `commute_succeeds_around_gap` applies to it, and the rebased replace is the second
     step again because its whole range moved unchanged (`around_again_window`) -/
-theorem commute_succeeds_around_around_gap (S : Schema) (htr : CompatTrans S) (d da db : Node)
+theorem commute_succeeds_around_around_gap (S : Schema) (htr : compatTransB S = true) (d da db : Node)
     (f t gf gt ins f' t' gf' gt' ins' : Nat) (sl sl' : Slice) (st st' : Bool)
     (hv : C01.Valid S d) (hpvA : C01.PayloadValid S d (.replaceAround f t gf gt sl ins st))
     (hpvB : C01.PayloadValid S d (.replaceAround f' t' gf' gt' sl' ins' st'))
@@ -2039,7 +2040,7 @@ theorem commute_succeeds_around_around_gap (S : Schema) (htr : CompatTrans S) (d
     rebased mark step applies because the result of the replace-around step is valid and the moved ends stay
     pair-aligned.  `_partial`: the guard is not forced for mark steps (it excludes marking the content of the very
     textblock that `set_node_markup` / `set_block_type` re-create — there `ParentStable` is the real condition). -/
-theorem commute_succeeds_around_mark_gap_partial (S : Schema) (htr : CompatTrans S) (hts : TextLoop S)
+theorem commute_succeeds_around_mark_gap_partial (S : Schema) (htr : compatTransB S = true) (hts : TextLoop S)
     (d da db : Node) (f t gf gt ins : Nat) (sl : Slice) (st : Bool) (f2 t2 : Nat) (mk : Mark) (M : Step)
     (hM : M = .addMark f2 t2 mk ∨ M = .removeMark f2 t2 mk)
     (hv : C01.Valid S d) (hpv : C01.PayloadValid S d (.replaceAround f t gf gt sl ins st))
@@ -2150,7 +2151,7 @@ theorem stepMarks_canonical (S : Schema) (pos : Nat) (N : Step) (hN : NodeStepAt
 /-- **a node-mark / attr step on a token strictly inside the kept gap whose parent lies inside the gap**
     (`gapGuard` for the one-token range with a closed slice: the addressed node is not a top-level node of the gap
     content): both rebased steps apply and give the same document -/
-theorem commute_succeeds_around_nodeStep_gap_partial (S : Schema) (htr : CompatTrans S) (d da db : Node)
+theorem commute_succeeds_around_nodeStep_gap_partial (S : Schema) (htr : compatTransB S = true) (d da db : Node)
     (f t gf gt ins : Nat) (sl : Slice) (st : Bool) (pos : Nat) (N : Step) (hN : NodeStepAt pos N)
     (hv : C01.Valid S d) (hpv : C01.PayloadValid S d (.replaceAround f t gf gt sl ins st))
     (hn : fnorm d.kids = true) (hsn : fnorm sl.content = true)
@@ -2228,6 +2229,18 @@ theorem commute_succeeds_around_nodeStep_gap_partial (S : Schema) (htr : CompatT
     rw [c1, c2 S, k2, k3, k1]; exact hu
   rw [nodeStep_apply_of S da n' u _ _ c3 hnat' hu', k4]
   exact hfr
+
+/-- non-vacuity of the decidable hypotheses of `commute_succeeds_around_gap` (and of the three theorems derived from
+    it): lifting both paragraphs out of `quote(p("a"), p("b"))` (`replaceAround 0 8 1 7 ⟨[], 0, 0⟩ 0`: closed slice, the
+    library's shape) against typing at 5 inside the second paragraph; the schema guard holds for the small schema of the
+    first example.  (Pairs of this kind that apply in the real code: harness counters `gapGuard:True,converged`,
+    `gapGuard-true:slice-closed=True,ends-aligned=True`.) -/
+example :
+    AroundShape 0 8 1 7 ⟨[], 0, 0⟩ 0 ∧ (Slice.mk [] 0 0).openStart = 0 ∧ (Slice.mk [] 0 0).openEnd = 0 ∧ 1 < 5 ∧ 5 < 7 ∧
+    gapGuard [.elem 3 [] [] [.elem 1 [] [] [.text [97] []], .elem 1 [] [] [.text [98] []]]] 1 7 5 5
+      ⟨[.text [120] []], 0, 0⟩ = true ∧ compatTransB tinyS = true := by
+  refine ⟨by decide, rfl, rfl, by decide, by decide, ?_, by decide⟩
+  simp [gapGuard, insideGap, depthAt]
 
 /-- the guard holds: in `doc(quote(p("a"), p("b")))`, lifting both paragraphs out of the quote
     (`replaceAround 0 8 1 7 ⟨[], 0, 0⟩ 0`, gap `[1, 7)`) against typing inside the second paragraph (`5 … 5`):
